@@ -1180,6 +1180,22 @@ func nullableRules(r *Run, p *Prog, m *idlModel, root string) {
 								returned = true
 							}
 						}
+						// an object that is recorded in the tree by the function that builds it (a member reader written
+						// in the member loop): at every place it is handed on, the member is known to be non-nil
+						if _, isPtrNode := al.Type().(*types.Pointer).Elem().Underlying().(*types.Struct); isPtrNode && !returned && al.Heap {
+							if pubs := publications(al); len(pubs) > 0 {
+								all := true
+								for _, pub := range pubs {
+									fsP := T.FactsAt(pub.Block())
+									if !hasFact(fsP, "NE", T.T(al)+"."+st.Field(i).Name(), "nil") && !hasFact(fsP, "NE", T.T(v), "nil") {
+										all = false
+									}
+								}
+								if all {
+									continue
+								}
+							}
+						}
 						if !returned && !hasFact(T.FactsAt(in.Block()), "NE", T.T(v), "nil") {
 							// check at the use (append) site instead: any block dominated by a nil test
 							okAll = false
